@@ -167,6 +167,9 @@ def _short(d):
     return {k: (v.hex() if len(v) < 24 else "len:%d md5:%s" % (len(v), md5hex(v)[:8])) for k, v in d.items()}
 
 
+from .util import list_store  # noqa: E402
+
+
 def run_interleaved(ctx, rng):
     """Several paths staged for ONE store before any of them is transferred (what `dvc add a b c` / a repro of several
     outputs does: stage everything, then move the data).  The staged paths share file contents.  Between the stagings and
@@ -319,6 +322,17 @@ def run_interleaved(ctx, rng):
     ctx.case(case, nontrivial=cross)
     ctx.count("interleaved_stagings")
     ctx.count("interleaved: targets=%d content_shared_with_disturbed=%s restaged=%s" % (ntargets, cross, bool(restaged)))
+    # ---- correspondence with Staging.transferStaged (one reference table per build() call): the file objects the store holds
+    def _abs(t, rel):
+        return os.path.join(t["path"], *rel.split("/")) if rel else t["path"]
+
+    fs_now = [[_abs(t, rel), b.hex()] for t in targets for rel, b in sorted(t["want"].items())]
+    steps = [{"staged": [[_abs(targets[i], rel), b.hex()] for rel, b in sorted(targets[i]["staged"]["want"].items())],
+              "oids": [h for _, h in targets[i]["staged"]["built"]]} for i in todo if res[i][0] == "ok"]
+    if steps and all(res[i][0] == "ok" for i in todo):
+        ans = ctx.driver.ask({"op": "staging", "fs_now": fs_now, "transfers": steps})
+        have = sorted([o, v[0]] for o, v in list_store(odb.path).items() if not o.endswith(".dir"))
+        ctx.corr("Staging.transferStaged~build()+transfer() (file objects in the store)", case, have, sorted(ans.get("store", [])))
     for i in todo:
         t = targets[i]
         s = t["staged"]
